@@ -268,13 +268,16 @@ def h_agree(ctx):
     ctx.nontrivial()
 
 
+NC_FORMATS = ("NETCDF4", "NETCDF3_CLASSIC", "NETCDF4_CLASSIC", "NETCDF3_64BIT_OFFSET", "NETCDF3_64BIT_DATA")   # all five on-disk flavours
+
+
 def h_detect(ctx):
     import verif.input
     seed = core.seed()
     ai = dataset(seed)
     content = ctx.choose("content", ("nc", "text"), free=True)
     fname = ctx.choose("name", ("data.txt", "data.nc", "data", "data.nc4", "data.csv", "DATA.NC"), free=True)
-    fmt = ctx.choose("nc-format", ("NETCDF4", "NETCDF3_CLASSIC", "NETCDF4_CLASSIC"), free=True) if content == "nc" else None
+    fmt = ctx.choose("nc-format", NC_FORMATS, free=True) if content == "nc" else None
     d = os.path.join(H.scratch(), "c10det%d" % os.getpid())
     os.makedirs(d, exist_ok=True)
     p = os.path.join(d, fname)
@@ -402,7 +405,7 @@ def run(tier, only=None):
         t0 = time.time()
         st = explore.explore(h, mode=mode, k=k, repo_root=core.REPO, time_cap=(300 if tier == "quick" else 3000))
         bound = {"optional": "full 2^9 subsets of optional variables x 2 time dtypes x attributes present/absent", "encodings": "dev(%s) over (field, cell) x 5 encodings" % k,
-                 "agree": "dev(%s) over missing cells x 3 NetCDF encodings, x 2 text row orders" % k, "detect": "2 contents x 6 file names x 3 NetCDF formats",
+                 "agree": "dev(%s) over missing cells x 3 NetCDF encodings, x 2 text row orders" % k, "detect": "2 contents x 6 file names x 5 NetCDF on-disk formats (classic, 64-bit offset, CDF-5, NetCDF-4, NetCDF-4 classic)",
                  "text2nc": "2^5 field subsets x 3 missing-cell variants x 2 row orders"}[name]
         subs.append(core.Sub.from_e1(name, st, bound=bound, rule="one execution = one file (pair); every dimension, metadata item and cell compared", wall=time.time() - t0))
     return subs
